@@ -184,6 +184,13 @@ Definition c_inert (b a : obs) : bool :=
   && match ob_sent a with [] => true | _ => false end
   && negb (is_some (ob_init a)) && negb (ob_resp a) && negb (ob_tun a).
 
+(* After a restart (interface down/up) the peer holds no key and no index is honoured. *)
+Definition c_restart (a : obs) : bool :=
+  negb (is_some (ob_prev a)) && negb (is_some (ob_cur a)) && negb (is_some (ob_next a))
+  && match ob_table a with [] => true | _ => false end && negb (is_some (ob_hs a))
+  && match ob_sent a with [] => true | _ => false end
+  && negb (is_some (ob_init a)) && negb (ob_resp a) && negb (ob_tun a).
+
 (* Trace bookkeeping + all clauses for one step.  Returns the new checker state and the
    number of the first clause that fails (0 = all hold). *)
 Definition first_false (l : list (N * bool)) : N :=
@@ -238,6 +245,7 @@ Definition sstep (t : sst) (ea : event * obs) : sst * N :=
                     (11, match ob_sent a with [] => true | _ => false end && negb (is_some (ob_init a)))]
        | Forged _ => [(12, c_inert b a)]
        | Replay _ => [(13, c_inert b a)]
+       | Restart => [(14, c_restart a)]
        end) in
   (* bookkeeping for the next step *)
   let promoted :=
@@ -245,13 +253,18 @@ Definition sstep (t : sst) (ea : event * obs) : sst * N :=
     | Recv _ => is_some (ob_next b) && negb (is_some (ob_next a))
     | _ => false
     end in
-  let latch1 := if completed || promoted then false else t_latch t in
+  let restarted := match e with Restart => true | _ => false end in
+  let latch1 := if completed || promoted || restarted then false else t_latch t in
   let latch2 :=
     match e, ob_cur a with
     | Recv _, Some c => if ob_tun a && so_init c && (t_rekey_recv <=? so_age c) then true else latch1
     | _, _ => latch1
     end in
-  let since1 := match e with Tick d => add_secs (t_since t) (d / sec) | _ => t_since t end in
+  let since1 := match e with
+                | Tick d => add_secs (t_since t) (d / sec)
+                | Restart => Some (t_spacing + 1)      (* Start: lastSentHandshake = now - (RekeyTimeout + 1 s) *)
+                | _ => t_since t
+                end in
   let since2 := if is_some (ob_init a) || ob_resp a then Some 0 else since1 in
   let inits := optN_list (ob_init a) ++ t_inits t in
   (mkSst sess (t_nsess t1) inits since2 latch2 conf a, verdict).
